@@ -7,6 +7,7 @@ partial iterations and replace() calls; every answer must equal list
 semantics on L = list(uncached twin of the same spec).
 """
 import copy
+import datetime
 
 from dsim.kernel import K, Deadlock, BudgetExceeded
 from . import rulelib as RL
@@ -164,6 +165,11 @@ REPLACE_CHOICES = [
     ("byweekday", [[0], [5, 6], None]),
     ("bymonthday", [[1, 15], [-1], None]),
     ("wkst", [0, 6]),
+    # two parameters at once, one of them named with the value None ("not
+    # given"): the rule switches from COUNT to UNTIL (so many days after its
+    # start) or from UNTIL to COUNT
+    ("count_to_until", [0, 10, 100, 400]),
+    ("until_to_count", [0, 1, 10, 11]),
 ]
 
 
@@ -377,7 +383,22 @@ def execute(cls, scenario, ctx):
             spec2.setdefault("wkst", fwd0)
             # (and the start it was built with, whatever the clock says now)
             spec2.pop("implicit_dtstart", None)
-            spec2[name] = val
+            kw2 = None
+            if name == "count_to_until":
+                try:
+                    u = RL.undt(RL.dt(spec2["dtstart"]).replace(tzinfo=None)
+                                + datetime.timedelta(days=val, hours=5))
+                except OverflowError:
+                    continue
+                spec2.pop("count", None)
+                spec2["until"] = u
+                kw2 = dict(count=None, until=RL.dt(u))
+            elif name == "until_to_count":
+                spec2.pop("until", None)
+                spec2["count"] = val
+                kw2 = dict(until=None, count=val)
+            else:
+                spec2[name] = val
             if name == "byweekday":
                 # replaces the whole BYDAY part, n-th weekdays included
                 spec2.pop("bynweekday", None)
@@ -393,6 +414,8 @@ def execute(cls, scenario, ctx):
                 kw = {name: val}
                 if name == "dtstart":
                     kw = {name: RL.dt(val)}
+                if kw2 is not None:
+                    kw = kw2
                 new = twins[t].replace(**kw)
                 if (len(L2) + len(name)) % 3 == 0:
                     # count() asked of the derived rule before anything has
